@@ -74,16 +74,16 @@ theorem recover_verify_pt (R : CurvePt) (hR : n • R = 0) (r s m : Nat)
 
 /-- `RecoverPublicKey(r, s, h, recid)` returned the finite point Q and the nonce point it went
     through has order dividing n: then `Signature.Verify` accepts (r, s) for Q and h. -/
-theorem recover_verifies_core (r s recid : Nat) (hb : Bytes) (Q : Nat × Nat)
-    (h : recoverPublicKey r s hb recid = some (some Q))
+theorem recover_verifies_core_legacy (r s recid : Nat) (hb : Bytes) (Q : Nat × Nat)
+    (h : recoverPublicKeyLegacy r s hb recid = some (some Q))
     (hord : mul n (recoverNonce r recid) = none) :
     sigVerify true r s (some Q) (beVal hb) = true := by
-  unfold recoverPublicKey at h
+  unfold recoverPublicKeyLegacy at h
   by_cases hrange : r = 0 ∨ r ≥ n ∨ s = 0 ∨ s ≥ n
   · rw [if_pos hrange] at h; exact absurd h (by simp)
   rw [if_neg hrange] at h
   have hpn : n < p := by decide
-  unfold recover at h
+  unfold recoverLegacy at h
   unfold recoverNonce at hord
   generalize hrx : (if recid &&& 2 ≠ 0 then r + n else r) = rx at h hord
   simp only at h hord
@@ -120,6 +120,29 @@ theorem recover_verifies_core (r s recid : Nat) (hb : Bytes) (Q : Nat × Nat)
     have hrange' : ¬ (true = true ∧ (r = 0 ∨ r ≥ n ∨ s = 0 ∨ s ≥ n)) := fun hh => hrange hh.2
     rw [if_neg hrange', recompute_eq r s (beVal hb) (some Q) rx y hpt, hxn]
     simp
+
+/-- the same for the current code (which additionally refuses a result at infinity) -/
+theorem recover_verifies_core (r s recid : Nat) (hb : Bytes) (Q : Nat × Nat)
+    (h : recoverPublicKey r s hb recid = some (some Q))
+    (hord : mul n (recoverNonce r recid) = none) :
+    sigVerify true r s (some Q) (beVal hb) = true := by
+  rw [recoverPublicKey_eq] at h
+  refine recover_verifies_core_legacy r s recid hb Q ?_ hord
+  cases hl : recoverPublicKeyLegacy r s hb recid with
+  | none => rw [hl] at h; simp at h
+  | some P =>
+    cases P with
+    | none => rw [hl] at h; simp at h
+    | some q => rw [hl] at h; simpa using h
+
+omit L in
+/-- the current code never hands out the point at infinity as a recovered key -/
+theorem recover_ne_infinity (r s recid : Nat) (hb : Bytes) :
+    recoverPublicKey r s hb recid ≠ some none := by
+  rw [recoverPublicKey_eq]
+  cases hl : recoverPublicKeyLegacy r s hb recid with
+  | none => simp
+  | some P => cases P <;> simp
 
 end
 end GocoinV.Proofs.C03
